@@ -127,8 +127,11 @@ func (vm *VM) Aborted() bool {
 
 // Run runs VM and executes the instructions until the OpReturn Opcode or Abort call.
 func (vm *VM) Run(globals Object, args ...Object) (Object, error) {
+	verifPoint("run.enter", vm)
 	vm.mu.Lock()
 	defer vm.mu.Unlock()
+	defer verifPoint("run.exit", vm)
+	verifPoint("run.locked", vm)
 
 	if vm.bytecode == nil || vm.bytecode.Main == nil {
 		return nil, errors.New("invalid Bytecode")
@@ -151,6 +154,7 @@ func (vm *VM) Run(globals Object, args ...Object) (Object, error) {
 		}
 	}
 
+	verifPoint("run.ready", vm)
 	for run := true; run; {
 		run = vm.run()
 	}
@@ -1622,12 +1626,14 @@ func (inv *Invoker) Invoke(args ...Object) (Object, error) {
 	if inv.vm == nil {
 		return Undefined, ErrNotCallable.NewError("compiled function needs a VM")
 	}
+	verifPoint("invoke.pre_check", inv.vm)
 	if inv.child == nil {
 		inv.acquire(false)
 	}
 	if inv.child.Aborted() {
 		return Undefined, ErrVMAborted
 	}
+	verifPoint("invoke.pre_child_run", inv.vm)
 	return inv.child.Run(inv.vm.globals, args...)
 }
 
@@ -1672,6 +1678,8 @@ func (v *vmPool) acquire(cf *CompiledFunction, usePool bool) *VM {
 }
 
 func (v *vmPool) _acquire(vm *VM, cf *CompiledFunction) *VM {
+	verifPoint("pool.acquire.pre_lock", v.root)
+	defer verifPoint("pool.acquire.registered", v.root)
 	v.mu.Lock()
 	defer v.mu.Unlock()
 
@@ -1699,6 +1707,8 @@ func (v *vmPool) release(vm *VM) {
 }
 
 func (v *vmPool) _release(vm *VM) {
+	verifPoint("pool.release.pre", v.root)
+	defer verifPoint("pool.release.done", v.root)
 	v.mu.Lock()
 	delete(v.vms, vm)
 	v.mu.Unlock()
